@@ -72,25 +72,83 @@ def Dec.trunc (d : Dec) : Int :=
   let q : Int := (d.mant / 10 ^ d.exp : Nat)
   if d.neg then -q else q
 
-/-! ## literals accepted by the casts (strconv on the decimal subset)
+/-! ## literals accepted by the casts (strconv)
 
-`strconv.ParseInt(v, 0, bits)` also accepts `0x…`, `0o…`, `0b…`, a leading `0` (octal) and `_`; the model covers
-decimal literals without leading zeros and treats every other text as "cannot cast" (documented restriction). -/
+`strconv.ParseInt(v, 0, bits)` / `ParseUint(v, 0, bits)`: optional sign (ParseInt only), base prefix `0x` / `0o` /
+`0b` (either letter case; needs at least one more character), a leading `0` alone means octal, `_` may separate digits
+(`underscoreOK`).  `strconv.ParseFloat`: decimal mantissa with an optional fraction (`.5`, `5.` allowed) and an
+optional decimal exponent; `inf` / `nan` / hexadecimal floats / `_` in floats are outside the model. -/
 
+/-- plain decimal without leading zeros (ports in the Spec, durations) -/
 def decimalNat (s : Str) : Option Nat :=
   match s with
   | [] => none
   | ['0'] => some 0
   | c :: _ => if c == '0' then none else if allDigits s then some (digitsVal s 0) else none
 
+/-- value of a digit / letter as strconv reads it (`a` = 10 … `z` = 35, either case) -/
+def digitVal (c : Char) : Option Nat :=
+  if isDigitC c then some (c.toNat - 48)
+  else
+    let l := lowerC c
+    if 97 ≤ l.toNat ∧ l.toNat ≤ 122 then some (l.toNat - 97 + 10) else none
+
+/-- the digit loop of `ParseUint` with `base == 0` given: `_` is skipped, every other character must be a digit below `base` -/
+def digitsBase (base : Nat) : Str → Nat → Option Nat
+  | [], acc => some acc
+  | c :: cs, acc =>
+    if c == '_' then digitsBase base cs acc
+    else
+      match digitVal c with
+      | some d => if d < base then digitsBase base cs (acc * base + d) else none
+      | none => none
+
+def isHexLetterC (c : Char) : Bool := 97 ≤ (lowerC c).toNat && (lowerC c).toNat ≤ 102
+
+/-- `strconv.underscoreOK` after sign and base prefix; `saw`: `'0'` digit, `'_'` underscore, `'!'` other, `'^'` start -/
+def underscoreLoop (hex : Bool) : Str → Char → Bool
+  | [], saw => saw != '_'
+  | c :: cs, saw =>
+    if isDigitC c || (hex && isHexLetterC c) then underscoreLoop hex cs '0'
+    else if c == '_' then (if saw != '0' then false else underscoreLoop hex cs '_')
+    else if saw == '_' then false
+    else underscoreLoop hex cs '!'
+
+/-- `strconv.underscoreOK` on an unsigned text: `_` only between digits or between a base prefix and a digit -/
+def underscoreOK (s : Str) : Bool :=
+  match s with
+  | '0' :: p :: r =>
+    let l := lowerC p
+    if l == 'b' || l == 'o' || l == 'x' then underscoreLoop (l == 'x') r '0' else underscoreLoop false s '^'
+  | _ => underscoreLoop false s '^'
+
+/-- `strconv.ParseUint(s, 0, _)` without the range check (the callers check the width) -/
+def parseUintLit (s : Str) : Option Nat :=
+  match s with
+  | [] => none
+  | '0' :: rest =>
+    let (base, body) : Nat × Str :=
+      match rest with
+      | p :: q :: r =>
+        let l := lowerC p
+        if l == 'b' then (2, q :: r) else if l == 'o' then (8, q :: r) else if l == 'x' then (16, q :: r) else (8, rest)
+      | _ => (8, rest)
+    (digitsBase base body 0).bind fun n => if body.contains '_' && !underscoreOK s then none else some n
+  | _ => (digitsBase 10 s 0).bind fun n => if s.contains '_' && !underscoreOK s then none else some n
+
+/-- `strconv.ParseInt(s, 0, _)` without the range check -/
 def parseIntLit (s : Str) : Option Int :=
   match s with
-  | '-' :: r => (decimalNat r).map fun n => - (n : Int)
-  | '+' :: r => (decimalNat r).map fun n => (n : Int)
-  | _ => (decimalNat s).map fun n => (n : Int)
+  | '-' :: r => (parseUintLit r).map fun n => - (n : Int)
+  | '+' :: r => (parseUintLit r).map fun n => (n : Int)
+  | _ => (parseUintLit s).map fun n => (n : Int)
 
-/-- `strconv.ParseUint`: no sign at all -/
-def parseUintLit (s : Str) : Option Nat := decimalNat s
+/-- `strconv.Atoi`: base 10, optional sign, digits only (leading zeros allowed, no `_`, no prefix) -/
+def atoi (s : Str) : Option Int :=
+  match s with
+  | '-' :: r => if allDigits r then some (- (digitsVal r 0 : Int)) else none
+  | '+' :: r => if allDigits r then some (digitsVal r 0 : Int) else none
+  | _ => if allDigits s then some (digitsVal s 0 : Int) else none
 
 def intFits (bits : Nat) (i : Int) : Bool :=
   decide (- (2 ^ (bits - 1) : Nat) ≤ i) && decide (i < (2 ^ (bits - 1) : Nat))
@@ -108,13 +166,39 @@ def splitDot : Str → Str → Str × Option Str
   | [], acc => (acc.reverse, none)
   | c :: cs, acc => if c == '.' then (acc.reverse, some cs) else splitDot cs (c :: acc)
 
-def parseDecAbs (s : Str) : Option (Nat × Nat) :=
+/-- text before / after the first `e` or `E` -/
+def splitExp : Str → Str → Str × Option Str
+  | [], acc => (acc.reverse, none)
+  | c :: cs, acc => if c == 'e' || c == 'E' then (acc.reverse, some cs) else splitExp cs (c :: acc)
+
+def digitsOrEmpty (s : Str) : Bool := s.all isDigitC
+
+/-- mantissa `digits[.digits]` with at least one digit: (all digits as a number, number of fraction digits) -/
+def parseMantissa (s : Str) : Option (Nat × Nat) :=
   match splitDot s [] with
   | (ip, none) => if allDigits ip then some (digitsVal ip 0, 0) else none
   | (ip, some fp) =>
-    if allDigits ip && allDigits fp then some (digitsVal (ip ++ fp) 0, fp.length) else none
+    if digitsOrEmpty ip && digitsOrEmpty fp && !(ip.isEmpty && fp.isEmpty) then some (digitsVal (ip ++ fp) 0, fp.length)
+    else none
 
-/-- `strconv.ParseFloat` on plain decimal literals (no exponent, inf, nan, hex: those are "cannot cast" here) -/
+/-- exponent `[+-]digits` -/
+def parseExponent (s : Str) : Option Int :=
+  match s with
+  | '-' :: r => if allDigits r then some (- (digitsVal r 0 : Int)) else none
+  | '+' :: r => if allDigits r then some (digitsVal r 0 : Int) else none
+  | _ => if allDigits s then some (digitsVal s 0 : Int) else none
+
+/-- (mantissa, decimal places) of an unsigned decimal literal with optional exponent -/
+def parseDecAbs (s : Str) : Option (Nat × Nat) :=
+  match splitExp s [] with
+  | (m, none) => parseMantissa m
+  | (m, some e) =>
+    match parseMantissa m, parseExponent e with
+    | some (mant, places), some ex =>
+      if ex ≥ 0 then some (mant * 10 ^ ex.toNat, places) else some (mant, places + ex.natAbs)
+    | _, _ => none
+
+/-- `strconv.ParseFloat` on decimal literals (inf, nan, hex floats, `_`: "cannot cast" here) -/
 def parseDecLit (s : Str) : Option Dec :=
   match s with
   | '-' :: r => (parseDecAbs r).map fun (m, e) => ⟨true, m, e⟩
@@ -344,7 +428,9 @@ inductive VTag
   | required
   | min (n : Int)
   | minTime (ns : Int)
+  | maxTime (ns : Int)
   | endpoint
+  | urlPath
   | dive
   | omitempty
   | oneOf (alts : List Str)
@@ -445,24 +531,109 @@ def DVal.isZero : DVal → Bool
   | .nil => true
   | _ => false
 
-def portOk (p : Str) : Bool :=
-  match decimalNat p with
-  | some n => decide (1 ≤ n) && decide (n ≤ 65535)
+/-! ### `EndpointStringValidation`: `net.SplitHostPort`, `govalidator.IsHost`, `govalidator.IsPort` -/
+
+def asciiAlnum (c : Char) : Bool :=
+  isDigitC c || (97 ≤ c.toNat && c.toNat ≤ 122) || (65 ≤ c.toNat && c.toNat ≤ 90)
+
+/-- `govalidator.IsPort`: `strconv.Atoi` succeeds and `0 < i < 65536` -/
+def isPort (p : Str) : Bool :=
+  match atoi p with
+  | some i => decide (0 < i) && decide (i < 65536)
   | none => false
 
-def hostCharOk (c : Char) : Bool :=
-  isDigitC c || (97 ≤ c.toNat && c.toNat ≤ 122) || (65 ≤ c.toNat && c.toNat ≤ 90) || c == '.' || c == '-'
-
+/-- text before and after the LAST `:` -/
 def cutLastColon (s : Str) : Option (Str × Str) :=
   match cutColon s.reverse [] with
   | none => none
   | some (portRev, hostRev) => some (hostRev.reverse, portRev.reverse)
 
-/-- `EndpointStringValidation` on `host:port` with a DNS-name / IPv4 host (no brackets) -/
-def endpointOk (s : Str) : Bool :=
+/-- text before and after the FIRST `]` -/
+def cutBracket : Str → Str → Option (Str × Str)
+  | [], _ => none
+  | c :: cs, acc => if c == ']' then some (acc.reverse, cs) else cutBracket cs (c :: acc)
+
+/-- `net.SplitHostPort`: the port is the text after the last `:`; a host in brackets must be closed right in front of
+that colon; without brackets the host has no `:`; no stray `[` / `]` anywhere else -/
+def splitHostPort (s : Str) : Option (Str × Str) :=
   match cutLastColon s with
-  | none => false
-  | some (host, port) => portOk port && host.all hostCharOk && !host.contains ':'
+  | none => none                                    -- missing port
+  | some (pre, port) =>
+    match s with
+    | '[' :: r =>
+      match cutBracket r [] with
+      | none => none                                -- missing ']'
+      | some (host, after) =>
+        if after == ':' :: port then
+          if r.contains '[' || after.contains ']' then none else some (host, port)
+        else none                                   -- missing port / too many colons
+    | _ =>
+      if pre.contains ':' then none                 -- too many colons
+      else if s.contains '[' || s.contains ']' then none
+      else some (pre, port)
+
+/-- pieces between dots -/
+def splitDots : Str → List Str
+  | [] => [[]]
+  | c :: cs =>
+    if c == '.' then [] :: splitDots cs
+    else
+      match splitDots cs with
+      | [] => [[c]]
+      | l :: ls => (c :: l) :: ls
+
+def labelOk (l : Str) : Bool :=
+  match l with
+  | [] => false
+  | c :: r => (asciiAlnum c || c == '_') && r.all fun x => asciiAlnum x || x == '_' || x == '-'
+
+/-- `govalidator.IsHost` on a host without `:` whose labels have at most 63 characters: `IsIP(h) || IsDNSName(h)` is
+the DNS-name regexp there (a dotted quad matches it too): dot-separated labels, first character a letter / digit /
+`_`, then letters / digits / `_` / `-`; one trailing dot allowed -/
+def isHostName (h : Str) : Bool :=
+  let ls := splitDots h
+  -- a trailing dot shows as an empty last piece
+  let ls' := if ls.getLast? == some [] && decide (2 ≤ ls.length) then ls.dropLast else ls
+  ls'.all labelOk
+
+/-- hosts the model describes: no `:` (IPv6 literals are parsed by `net.ParseIP`), labels of at most 63 and 255 characters in all -/
+def hostInModel (h : Str) : Bool :=
+  !h.contains ':' && (splitDots h).all (fun l => decide (l.length ≤ 63)) && decide (h.length ≤ 255) && h.all fun c => decide (c.toNat < 128)
+
+/-- the boolean structure of `EndpointStringValidation` (Bridge/Config.lean proves the regenerated body equal to it):
+`err == nil && (host == "" || IsHost(host)) && IsPort(port)` -/
+def endpointShape (errNil hostEmpty isHost isPort : Bool) : Bool := errNil && (hostEmpty || isHost) && isPort
+
+/-- `EndpointStringValidation` -/
+def endpointOk (s : Str) : Bool :=
+  match splitHostPort s with
+  | none => endpointShape false false false false
+  | some (host, port) => endpointShape true host.isEmpty (isHostName host) (isPort port)
+
+/-- is the endpoint text one whose host the model describes? -/
+def endpointInModel (s : Str) : Bool :=
+  match splitHostPort s with
+  | none => true
+  | some (host, _) => hostInModel host
+
+/-! ### `URLPathStringValidation`: `^(/[a-zA-Z0-9._~!$&'()*+,;=:@%-]+)+$` -/
+
+def pathCharOk (c : Char) : Bool := asciiAlnum c || "._~!$&'()*+,;=:@%-".toList.contains c
+
+/-- after the leading `/`; `afterSlash`: the current segment is still empty -/
+def urlPathLoop : Str → Bool → Bool
+  | [], afterSlash => !afterSlash
+  | c :: cs, afterSlash =>
+    if c == '/' then (if afterSlash then false else urlPathLoop cs true)
+    else pathCharOk c && urlPathLoop cs false
+
+def urlPathOk (s : Str) : Bool :=
+  match s with
+  | '/' :: r => urlPathLoop r true
+  | _ => false
+
+/-- the boolean structure of `MinTimeValidation` / `MaxTimeValidation` (and the size variants): `ok && bound` -/
+def boundShape (ok inBound : Bool) : Bool := ok && inBound
 
 /-- one validator tag against the value of the field -/
 def tagFail (t : VTag) (v : DVal) : Bool :=
@@ -479,11 +650,19 @@ def tagFail (t : VTag) (v : DVal) : Bool :=
     | _ => false
   | .minTime ns =>
     match v with
-    | .int i => decide (i < ns)
+    | .int i => !boundShape true (decide (ns ≤ i))
+    | _ => true
+  | .maxTime ns =>
+    match v with
+    | .int i => !boundShape true (decide (i ≤ ns))
     | _ => true
   | .endpoint =>
     match v with
     | .str s => !endpointOk s
+    | _ => true
+  | .urlPath =>
+    match v with
+    | .str s => !urlPathOk s
     | _ => true
   | .oneOf alts =>
     match v with
